@@ -45,7 +45,7 @@ fn read_step(local: &ZalsaLocal, now: usize, m: &mut StampModel) {
                 key(8, 0, 0),
                 Durability::NEVER_CHANGE,
                 Revision::from(r),
-                empty_cycle_heads(),
+                &CycleHeads::default(), // (not the global empty_cycle_heads(): its OnceLock initialisation is costly to encode)
                 #[cfg(feature = "accumulator")]
                 false,
                 #[cfg(feature = "accumulator")]
